@@ -656,7 +656,26 @@ def _mem_replace(m, args, ci):
 
 @I.add('std::mem::take', 'core::mem::take')
 def _mem_take(m, args, ci):
-    raise Unsupported('mem::take')
+    """`mem::take(&mut x)`: x := Default::default(), old value returned.  The default is built for the kinds of value
+    the crate holds in such places (Vec / String, Option, integers, bool, maps); anything else is declined."""
+    r = args[0]
+    old = r.get()
+    from .values import Seq
+    from . import lib_std
+    if isinstance(old, Seq):
+        new = Seq([], old.kind)
+    elif isinstance(old, Adt) and last_seg(old.ty or '') == 'Option' or (isinstance(old, Adt) and old.variant in ('Some', 'None') and not old.ty):
+        new = none()
+    elif isinstance(old, bool):
+        new = False
+    elif isinstance(old, int):
+        new = 0
+    elif isinstance(old, lib_std.HMap):
+        new = lib_std.HMap()
+    else:
+        raise Unsupported('mem::take of ' + type(old).__name__ + ' ' + str(ci.raw)[:80])
+    r.set(new)
+    return old
 
 @I.add('std::mem::forget', 'core::mem::forget')
 def _mem_forget(m, args, ci):
